@@ -84,11 +84,10 @@ CombineConserves == [][\A a, b \in Acc :
      (hist' # hist /\ hist'[Len(hist')].op = "Combine" /\ hist'[Len(hist')].a = a /\ hist'[Len(hist')].b = b)
         => /\ bag'[b] = bag[b] /\ Len(bag'[a]) = Len(bag[a]) + Len(bag[b])
            /\ \A c \in Acc \ {a} : bag'[c] = bag[c]]_vars
-\* observables are a function of the multiset only (order of arrival is irrelevant)
-Sorted(s) == CHOOSE t \in [1..Len(s) -> Vals] :
-                 /\ \A i \in 1..(Len(s)-1) : t[i] <= t[i+1]
-                 /\ \A v \in Vals : Cardinality({i \in 1..Len(s) : s[i] = v}) = Cardinality({i \in 1..Len(s) : t[i] = v})
-OrderFree == \A a \in Acc : Obs(bag[a]) = Obs(Sorted(bag[a]))
+\* observables are a function of the multiset only: reversing or rotating the order of arrival changes nothing
+Reverse(s) == [i \in 1..Len(s) |-> s[Len(s) + 1 - i]]
+Rotate(s) == IF s = <<>> THEN s ELSE Tail(s) \o <<Head(s)>>
+OrderFree == \A a \in Acc : Obs(bag[a]) = Obs(Reverse(bag[a])) /\ Obs(bag[a]) = Obs(Rotate(bag[a]))
 
 \* ---- case emission (replay direction) ----
 ObsRec(s) == LET o == Obs(s) IN
